@@ -102,6 +102,15 @@ pub fn run(ctx: &Arc<Ctx>) {
             cases.push(mk(sig_bytes(&r, v), &msg, &id, &pkh, &format!("s={}", name)));
         }
         cases.push(mk(sig_bytes(&r, &(&n - &r)), &msg, &id, &pkh, "s=n-r"));
+        // in-range (r, s) for which [s]G + [r+s]P is the point at infinity: s + t d = 0 with t = r + s
+        for sv in [BigUint::one(), &n - 1u32, g.nonzero_below(&n)] {
+            let dinv = d.modpow(&(&n - 2u32), &n);
+            let t = (&n - (&sv * &dinv) % &n) % &n;
+            let rv = (&t + &n - &sv) % &n;
+            if !t.is_zero() && !rv.is_zero() {
+                cases.push(mk(sig_bytes(&rv, &sv), &msg, &id, &pkh, "sum-is-point-at-infinity"));
+            }
+        }
         cases.push(mk(sig_bytes(&s, &r), &msg, &id, &pkh, "swapped"));
         cases.push(mk(sig_bytes(&(&r + &n).min(max.clone()), &s), &msg, &id, &pkh, "r+n"));
         cases.push(mk(sig_bytes(&r, &(&s + &n).min(max.clone())), &msg, &id, &pkh, "s+n"));
